@@ -34,7 +34,12 @@ func verifRandomText(rng *rand.Rand, n int, nlRate int) string {
 		x := rng.Intn(100)
 		switch {
 		case x < nlRate:
-			b.WriteString("\n")
+			/* a line break usually comes bare, but may carry styling like any character */
+			if rng.Intn(4) == 0 {
+				verifStyled(&b, "\n", open)
+			} else {
+				b.WriteString("\n")
+			}
 			continue
 		case x < nlRate+22:
 			r := verifSpaces[rng.Intn(len(verifSpaces))]
@@ -71,6 +76,8 @@ func verifDecode(codes string) string {
 			b.WriteString(" ")
 		case 'n':
 			b.WriteString("\n")
+		case 'm':
+			b.WriteString("\x1b[4m\n")
 		}
 	}
 	return b.String()
